@@ -75,10 +75,12 @@ def _one(args):
     try:
         _copy_tree(repo, d)
         if e["kind"] in ("seed", "twinpatch"):
-            p = subprocess.run(["git", "apply", "--unsafe-paths", "--directory=" + d, e["patch"]], cwd="/", stdout=subprocess.PIPE, stderr=subprocess.STDOUT, text=True)
+            p = subprocess.run(["git", "apply", "--unsafe-paths", "--exclude=tests/*", "--exclude=inputs/*", "--exclude=outputs/*", "--directory=" + d, e["patch"]],
+                               cwd="/", stdout=subprocess.PIPE, stderr=subprocess.STDOUT, text=True)
             if p.returncode != 0:
                 # patches are relative to the repo root: apply with patch(1) semantics through git in the scratch dir
-                q = subprocess.run("cd %s && git init -q . 2>/dev/null; git apply %s" % (d, e["patch"]), shell=True, stdout=subprocess.PIPE, stderr=subprocess.STDOUT, text=True)
+                q = subprocess.run("cd %s && git init -q . 2>/dev/null; git apply --exclude='tests/*' --exclude='inputs/*' --exclude='outputs/*' %s" % (d, e["patch"]), shell=True,
+                                   stdout=subprocess.PIPE, stderr=subprocess.STDOUT, text=True)
                 if q.returncode != 0:
                     return dict(e, status="not-applicable", detail=q.stdout[-200:])
         else:
